@@ -201,7 +201,7 @@ def layered(  # pylint: disable=too-many-arguments,too-many-locals,too-many-bran
                     yield from emit(prog, at, False)
         for nsubs in (0, 1):
             o = core.Opts(kinds=kinds, cond_level=0, nsubs=nsubs)
-            for size in (2,) if tier == "quick" else (2, 3):
+            for size in (2,):
                 for prog, k in core.skeletons(size, o):
                     if k < 2:
                         continue
